@@ -168,3 +168,38 @@ claim("C20", category="model_checking", engine="arraymc",
            "foreign files kept.",
       note="unambiguity judged on the tagged log; human readable stdout not judged",
       design="3 C20")
+
+claim("C10", category="model_checking", engine="arraymc + bytemc",
+      technique="explicit-state BFS over real histories with byte-level round-trip oracles (tool rewrite, independent encoder), plus exhaustive boundary-value synthesis through the independent encoder",
+      text="(a) On every distinct state within depth 2 (quick) / 3 (thorough) of C06's alphabet, in 2 / 4 configurations (several content copies incl. "
+           "one on a data disk, reduced hash sizes 8 and 2, both hash kinds, split parity, position hole, z mode, odd names, links, empty dirs): the "
+           "independent encoder reproduces the tool's content bytes exactly, test-rewrite reproduces every copy byte for byte, list and status -G "
+           "dumps are unchanged by the rewrite and identical whichever copy is read (earlier copies removed one by one). (b) States synthesised "
+           "with the independent encoder - every 64-bit scalar (size-compatible mtime, inode) and 32-bit scalar (total/free blocks of maps and "
+           "parities) at each varint length boundary up to 2^64-1 / 2^32-1, nanoseconds invalid/0/1/999999999/2^30, info times at delta boundaries "
+           "with alternating flags, sparse maps with single-block runs at positions 127..2^21, a 16389-block run and 300 deleted blocks - must be "
+           "loaded, rewritten to exactly the encoder's bytes, and shown with the same values by list.",
+      note="info times are multiples of 8 s and never in the future in reachable states; states are re-based between same-length lab roots because v3 content records absolute split paths",
+      design="3 C10")
+
+claim("C02", category="exploration", engine="raidmc",
+      technique="exhaustive enumeration of every table entry and of every generator variant x nd x size x basis/dense input on the real functions against an independent GF(2^8) reference",
+      text="All 108 626 entries of the seven lookup tables are compared with a shift-and-xor GF(2^8)/0x11d reference and the generator matrices built "
+           "from their definitions. Every raid_gen*/raid_genz* function declared in raid/internal.h (scanned at build time; 30 today, every CPU "
+           "variant is runnable here) and the dispatcher in both modes are run for nd in a 14-value boundary set (quick) / every nd 1..251 (255 for "
+           "z) (thorough), sizes 64..512 and 16384, with the complete single-disk byte basis (all 256 values in all 64 lanes, every disk) and dense / "
+           "seeded inputs; parity must equal the reference sum, data buffers stay unchanged, parities beyond np and all canaries stay intact.",
+      note="built by a sub-agent under my specification and re-run by me; linearity is not assumed (basis + dense families)",
+      design="3 C02")
+
+claim("C03", category="exploration", engine="raidmc",
+      technique="exhaustive enumeration of all 377 342 351 231 square minors of the generator tables and of all erasure index sets up to stated nd on the real decoders",
+      text="Every square sub-matrix of the exported 6x251 Cauchy table and of the 3x251/3x255 power matrices is shown non-singular by a depth-first "
+           "elimination walk with own arithmetic (zeros confirmed by a plain determinant, per-k counts must equal C(rows,k)C(cols,k), planted-singular "
+           "self-test first); the tables must equal their definitions. All 9 low-level decoders plus raid_rec and raid_data in both modes: every "
+           "failure index set over data and parity and every admissible parity subset for nd<=8 (thorough 12), all pairs plus a boundary alphabet "
+           "for nd up to 251; recovered blocks bit-identical, survivors, unrequested parities, pointer vectors and canaries untouched. raid_check / "
+           "raid_scan: every (corrupted set T, candidate set C) with |T|,|C|<np for nd<=5 (thorough 7): accept iff C covers T, reject when exactly "
+           "one corrupted block is unlisted, scan returns exactly T within the unique decoding radius.",
+      note="built by a sub-agent under my specification and re-run by me; only genuine erasure patterns (survivors consistent)",
+      design="3 C03")
